@@ -20,7 +20,9 @@ From YV Require Import Cond.Syntax Cond.Sem Cond.RuleSet.
 Import ListNotations.
 Local Open Scope Z_scope.
 
-Record obs := mkObs { o_verdict : bool; o_matches : list mlist }.
+(* [o_scan_matches]: did the scan report a match for any pattern of any rule
+   of the compiled set?  (false: the pattern search never ran, or found nothing) *)
+Record obs := mkObs { o_verdict : bool; o_matches : list mlist; o_scan_matches : bool }.
 
 Record case := mkCase {
   c_data : list Z;
@@ -52,8 +54,22 @@ Definition obs_eqb (with_matches : bool) (a b : obs) : bool :=
   Bool.eqb (o_verdict a) (o_verdict b) &&
   (negb with_matches || mlists_eqb (o_matches a) (o_matches b)).
 
+(* The pattern search is lazy by design: it runs when the first condition
+   that needs pattern information is evaluated, and not at all if no
+   condition does (lib/src/compiler/emit.rs,
+   emit_lazy_call_to_search_for_patterns).  The API documents
+   `Pattern::matches` as "the matches found for this pattern", so a scan in
+   which the search never ran reports no match for any pattern.  The
+   property is therefore read as: the verdict never changes, and the
+   reported matches are the same - except that a scan that reports no match
+   at all (for any rule) may correspond to the complete match lists (those
+   of the run with the search forced) on the other side. *)
 Definition spec_case (c : case) : bool :=
-  obs_eqb (c_matches_compared c) (c_single c) (c_embedded c).
+  let s := c_single c in let e := c_embedded c in let w := c_warm c in
+  obs_eqb (c_matches_compared c) s e ||
+  (Bool.eqb (o_verdict s) (o_verdict e) &&
+   ((negb (o_scan_matches s) && mlists_eqb (o_matches e) (o_matches w)) ||
+    (negb (o_scan_matches e) && mlists_eqb (o_matches s) (o_matches w)))).
 
 Definition restrict (a : nat * Z) (m : mlist) : mlist :=
   match fst a with
@@ -79,7 +95,7 @@ Definition predicted (c : case) : obs :=
         (match nth_error (c_core c) k with
          | Some r => restrict_all (c_anchor c) (map (fun p => find_all p (c_data c)) (r_pats r))
          | None => []
-         end).
+         end) true.
 
 (* the value of r's own condition (before global-rule suppression) *)
 Definition raw_verdict (c : case) : bool :=
@@ -93,5 +109,5 @@ Definition raw_verdict (c : case) : bool :=
 Definition check_case (c : case) : bool :=
   let p := predicted c in
   obs_eqb (c_matches_compared c && raw_verdict c)
-          (mkObs (o_verdict p) (blank (c_anchor c) (o_matches p)))
-          (mkObs (o_verdict (c_warm c)) (blank (c_anchor c) (o_matches (c_warm c)))).
+          (mkObs (o_verdict p) (blank (c_anchor c) (o_matches p)) true)
+          (mkObs (o_verdict (c_warm c)) (blank (c_anchor c) (o_matches (c_warm c))) true).
